@@ -139,6 +139,27 @@ func (s *Spec) GenMembers(ch Chooser, members []*Member, o GenOpts, depth int, e
 		}
 		out = append(out, &Item{Tag: m.Tag, Value: ValueFor(m, ch), Def: m})
 	}
+	// A scalar whose tag is also defined inside a group of the same level would be ambiguous on the
+	// wire (by position it reads as a member of that group): leave such scalars out.
+	var groupTags map[int]bool
+	for _, it := range out {
+		if it.IsGroup {
+			if groupTags == nil {
+				groupTags = map[int]bool{}
+			}
+			DefTags(it.Def, groupTags)
+		}
+	}
+	if groupTags != nil {
+		kept := out[:0]
+		for _, it := range out {
+			if !it.IsGroup && groupTags[it.Tag] {
+				continue
+			}
+			kept = append(kept, it)
+		}
+		out = kept
+	}
 	// fix up LENGTH/DATA pairs
 	for i, it := range out {
 		if it.Def != nil && (it.Def.Type == "DATA" || it.Def.Type == "XMLDATA") && i > 0 && out[i-1].Def != nil && out[i-1].Def.Type == "LENGTH" {
@@ -196,4 +217,14 @@ func (s *Spec) AllGroups() ([]GroupPath, error) {
 		walk(ms, nil)
 	}
 	return out, nil
+}
+
+// DefTags collects every tag defined inside a group definition, at any depth.
+func DefTags(m *Member, set map[int]bool) {
+	for _, x := range m.Members {
+		set[x.Tag] = true
+		if x.IsGroup {
+			DefTags(x, set)
+		}
+	}
 }
